@@ -110,3 +110,29 @@ Example C12_example :
   idx [1; 2; 3] 3 = Panic /\ slice [1; 2; 3] 2 4 = Panic /\ slice [1; 2; 3] 2 1 = Panic /\
   keyframe_av1 1 [40; 2; 10; 0; 50; 16] = OutOfFuel.
 Proof. vm_compute. repeat split; try reflexivity; discriminate. Qed.
+
+(* ---- RewritePacket and Write (added by the coordinator) ---- *)
+From Galene Require Import Model.Rewrite Model.Forward Proofs.RewriteSafe Proofs.ForwardProps.
+
+(* codecs.RewritePacket, for every byte string, codec, marker request, number
+   and delta: never out of bounds (the X-bit case was defect F3, fixed) *)
+Theorem C12_rewrite_safe : forall vp8 data sm seqno delta,
+  (forall b, In b data -> 0 <= b < 256) -> rewrite vp8 data sm seqno delta <> RPanic.
+Proof. exact rewrite_safe. Qed.
+Print Assumptions C12_rewrite_safe.
+
+(* ... and never changes the length *)
+Theorem C12_rewrite_length : forall vp8 data sm seqno delta d,
+  (forall b, In b data -> 0 <= b < 256) ->
+  rewrite vp8 data sm seqno delta = ROk d -> length d = length data.
+Proof. exact rewrite_length. Qed.
+Print Assumptions C12_rewrite_length.
+
+(* rtpDownTrack.Write, in every state and for every packet and flags *)
+Theorem C12_write_safe : forall vp8 st f buf, bytes_ok buf ->
+  snd (fst (write vp8 st f buf)) <> WPanic.
+Proof.
+  intros vp8 st f buf Hb E. pose proof (write_sent_spec vp8 st f buf Hb) as H.
+  cbv zeta in H. rewrite E in H. exact H.
+Qed.
+Print Assumptions C12_write_safe.
